@@ -37,6 +37,11 @@ func parseOptions() options {
 		types = append(types, k)
 	}
 
+	// Options come in pairs: a single trailing argument is an option without its value (or no option at all).
+	if (len(args)-1)%2 != 0 {
+		panic(fmt.Errorf("option %s has no value", args[len(args)-1]))
+	}
+
 	for i := 1; i < (len(args) - 1); i += 2 {
 		cSwitch := args[i]
 		cValue := args[i+1]
